@@ -321,7 +321,7 @@ func main() {
 	}
 	accEvery, rejEvery, perShard, ccShard, codecBudget := 2*scale, 12*scale, 400, 1200, 26000
 	if a.Tier == "thorough" {
-		perShard, ccShard, codecBudget = 3000, 2500, 45000
+		perShard, ccShard, codecBudget = 4000, 2500, 45000
 	}
 	sparseFrom := 1 << 30 // inputs from this index on reach the model 1 in 10 (thorough: the 12-letter alphabet space)
 	cs := hx.NewCases(a.Out, "From V.C08 Require Import Model Harness.\nFrom V.Base Require Import Hex.", "string * dobs * sobs * cobs", "check", perShard)
@@ -582,11 +582,17 @@ func main() {
 		if len(b) <= 400 {
 			for _, z := range zoo {
 				tv := z.mk()
-				runtime.ReadMemStats(&ms)
-				before := ms.TotalAlloc
+				measure := idx < sparseFrom || idx%8 == 0 // reading MemStats stops the world: sample the big exhaustive space
+				var before uint64
+				if measure {
+					runtime.ReadMemStats(&ms)
+					before = ms.TotalAlloc
+				}
 				err, pan := safeDecode(b, tv)
-				runtime.ReadMemStats(&ms)
-				if d := ms.TotalAlloc - before; d > uint64(1<<20+200*len(b)) {
+				if measure {
+					runtime.ReadMemStats(&ms)
+				}
+				if d := ms.TotalAlloc - before; measure && d > uint64(1<<20+200*len(b)) {
 					res.Violate("C08/alloc:"+z.name, fmt.Sprintf("decode allocated %d bytes for %d input bytes", d, len(b)), hex.EncodeToString(b))
 				}
 				res.Histogram["typed-evals"]++
@@ -601,7 +607,7 @@ func main() {
 					}
 					cc.Add(fmt.Sprintf("CDec %s %s (%s)", gt.name(reflect.TypeOf(tv).Elem()), hx.CoqHex(b), obs), map[string]string{"type": z.name, "input": hex.EncodeToString(b), "impl": obs})
 					// the older item-tree model of the typed layer (Typed.v) on a sample
-					if tyd, ok := zooTy[z.name]; ok && h%(6*accEvery) == 0 {
+					if tyd, ok := zooTy[z.name]; ok && h%(6*accEvery) == 0 && ts.Total() < codecBudget/4 {
 						ts.Add(fmt.Sprintf("(%s, %s, %s)", tyd, hx.CoqHex(b), obs), map[string]string{"type": z.name, "input": hex.EncodeToString(b), "impl": obs})
 					}
 				}
